@@ -31,6 +31,7 @@ MANIFEST = dict(
           "1972..9998 and every time of day, incl. the seconds around a leap second; the same with an explicit "
           "leap_seconds in both directions; Delta-T stays within 3.5 s of 42.184 s + leap seconds for every month "
           "1972..2018 and jumps by < 1 s at every segment joint after -500 (kernel-evaluated on the rational model). "
+          "tt2ut equals, for EVERY year and month, the published Espenak-Meeus expression of its segment (Spec/DeltaT.lean, power form), each switch-over year on the later segment; in <-500, 500..1599, >=2150 the code evaluates it at the integer year (stated as coded); get_date(utc=False) = get_date(); the 1972 gate is the year, not the count; read-back with utc=True unchanged before 1972; get_last_leap_second for any last table entry (whole year -> 31 Dec of the year before, mid-year -> 30 June); table shape (27 strictly increasing keys = IERS dates, k-th value k); a time of day outside 0<=h<24, 0<=min<60, 0<=s<60 (incl. 23:59:60) is refused with ValueError whatever the kwargs. "
           "Outside the documented domain: leap_seconds for ANY numeric year/month (floats, months outside 1..12) is "
           "characterised exactly (incl. the index wrap returning 27 and the IndexError); the local= paths are modelled with "
           "Epoch.utc2local() as a parameter: local absent/False = the modelled constructor, local=True = utc=True + offset, "
@@ -323,6 +324,8 @@ def generate(ctx, shard=0, nshards=1):
         finally:
             LEAP_TABLE.pop(2030.5, None)
         ctx.predicate('last_leap_second', out_mid == enc((2030, 6, 30.0, 28)), ['table+2030.5'], out_mid, 'last_leap_second/mid_year')
+        ctx.case('get_last_leap_second_of', [2030.5, 28], out_mid, q='exact', klass='get_last_leap_second')
+        ctx.case('get_last_leap_second_of', [2017.0, 27], out, q='exact', klass='get_last_leap_second')
         # leap_seconds outside the documented month range / far years: tie only
         for y in (1971, 1972, 1973, 2016, 2017, 2018, 1950, 0, -4712, 9999, 123456):
             for m in (-13, -1, 0, 1, 6, 7, 12, 13, 18, 19, 24, 25, 600):
